@@ -1,0 +1,30 @@
+//go:build verif
+
+// Machine-checked contracts for package printer (comment-only; see /verif/DESIGN.md).
+// The reducer table (closures keyed by kind strings over interface{} plumbing) is outside the verifier's reach
+// and is covered by the bounded stand-in PrinterRoundTrip only; the escaping of string values is here.
+
+package printer
+
+// quoteString (C08: string contents survive the round trip; C10: reported defaults re-parse): EVERY string goes
+// through the escaping loop between an opening and a closing quote; a quote, a backslash and the five short
+// escapes are written as their two-character escape; any other character below U+0020 is written as \u00XX;
+// every other character is written as it is.
+//@ func quoteString
+//@   props C08 C10
+//@   nosafety
+//@   ensures calls("WriteByte") == 2 && calls("String") == 1
+//@   loop 1 over s
+//@   loop 1 ensures r == '"' || r == '\\' || r == '\b' || r == '\f' || r == '\n' || r == '\r' || r == '\t' ==> calls("WriteString") == atloop(1, calls("WriteString")) + 1 && calls("WriteRune") == atloop(1, calls("WriteRune")) && calls("Fprintf") == atloop(1, calls("Fprintf"))
+//@   loop 1 ensures r != '"' && r != '\\' && r != '\b' && r != '\f' && r != '\n' && r != '\r' && r != '\t' && r < 32 ==> calls("Fprintf") == atloop(1, calls("Fprintf")) + 1 && calls("WriteRune") == atloop(1, calls("WriteRune")) && calls("WriteString") == atloop(1, calls("WriteString"))
+//@   loop 1 ensures r != '"' && r != '\\' && r >= 32 ==> calls("WriteRune") == atloop(1, calls("WriteRune")) + 1 && calls("Fprintf") == atloop(1, calls("Fprintf")) && calls("WriteString") == atloop(1, calls("WriteString"))
+//@   at call WriteRune: assert arg1 == r
+//@   at call WriteString#1: assert r == '"' && arg1 == "\\\""
+//@   at call WriteString#2: assert r == '\\' && arg1 == "\\\\"
+//@   at call WriteString#3: assert r == '\b' && arg1 == "\\b"
+//@   at call WriteString#4: assert r == '\f' && arg1 == "\\f"
+//@   at call WriteString#5: assert r == '\n' && arg1 == "\\n"
+//@   at call WriteString#6: assert r == '\r' && arg1 == "\\r"
+//@   at call WriteString#7: assert r == '\t' && arg1 == "\\t"
+//@   at call Fprintf: assert len(arg2) == 1 && intval(arg2[0]) == r
+//@   at call Fprintf: assert arg1 == "\\u%04x"
